@@ -166,22 +166,44 @@ def dec_unit(p, res):
                       'expected unit %r' % want))
         else:
             res.ok('unit=%r value=%r raw=%r on %s -> %r' % (unit, value, raw, name, want))
-    # option names
-    s = src_of(f.node)
-    for key in ("'stylesheet.unitAliases'", "'stylesheet.unitless'", "'stylesheet.floatUnit'", "'stylesheet.intUnit'"):
-        if key not in s:
-            res.bad(F('DEC-UNIT', f, f.node, key, 'option %s is no longer consulted' % key))
+    # option names: read by the function or by a helper it calls (the decision table above already depends on their values)
+    seen = set()
+    todo, done = [f], set()
+    while todo:
+        g = todo.pop()
+        if g.qualname in done or len(done) > 12:
+            continue
+        done.add(g.qualname)
+        for x in g.body_nodes():
+            if isinstance(x, ast.Constant) and isinstance(x.value, str):
+                seen.add(x.value)
+            elif isinstance(x, ast.Call):
+                tgt = p.resolve_call(g, x)
+                if isinstance(tgt, list):
+                    todo += [h for h in tgt if h.module is f.module]
+    for key in ('stylesheet.unitAliases', 'stylesheet.unitless', 'stylesheet.floatUnit', 'stylesheet.intUnit'):
+        if key not in seen:
+            res.bad(F('DEC-UNIT', f, f.node, repr(key), 'option %s is no longer consulted' % key))
         else:
             res.ok('reads ' + key)
     # resolve_node runs it for properties and for value contexts
+    from .. import shape
     rn = p.func('stylesheet.resolve_node')
-    calls = [c for c in rn.body_nodes() if isinstance(c, ast.Call) and src_of(c.func) == 'resolve_numeric_value']
-    pm = p.parents(rn)
-    okc = len(calls) == 1 and isinstance(pm.get(pm.get(calls[0])), ast.If) and src_of(pm.get(pm.get(calls[0])).test) == 'node.name or config.context'
-    if okc:
-        res.ok('resolve_numeric_value runs when node.name or config.context')
+    V = shape.View(p, rn, inline=False)
+    calls = V.calls('resolve_numeric_value')
+    if len(calls) == 1:
+        facts = {k: v for k, v in V.facts(calls[0], expand_defs=False)}
+        rel = {k: v for k, v in facts.items() if 'node.name' in k or 'config.context' in k}
+        if rel in ({'node.name or config.context': True}, {'config.context or node.name': True}):
+            res.ok('resolve_numeric_value runs when node.name or config.context')
+        elif rel in ({'node.name': True}, {'config.context': True}):
+            res.bad(F('DEC-UNIT', rn, calls[0], 'if %s: resolve_numeric_value(..)' % list(rel)[0], 'unit resolution must run for every property and every value context (node.name or config.context)'))
+        else:
+            res.undecided('guard of resolve_numeric_value: %s' % rel, 'node.name or config.context')
+    elif not calls:
+        res.bad(F('DEC-UNIT', rn, rn.node, 'resolve_numeric_value(..)', 'unit resolution is no longer run by resolve_node'))
     else:
-        res.bad(F('DEC-UNIT', rn, rn.node, 'call of resolve_numeric_value', 'unit resolution must run for every property and every value context'))
+        res.undecided('resolve_numeric_value calls', 'one call expected')
     res.require_floor(30)
 
 
